@@ -1,11 +1,214 @@
 /-
-  C18 — property theorems only (placeholder until the refinement proof lands).
+  C18 — non-asserting keywords are never read by the evaluator; unknown keywords never make Unmarshal fail.
+  Property theorems only (helper lemmas: JSV/Proofs/InvMeta.lean, JSV/Proofs/InvUnmarshal.lean).
 -/
-import JSV.Model.Validate
+import JSV.Proofs.InvMeta
+import JSV.Proofs.InvUnmarshal
 namespace JSV.C18
-open JSV Go
+open JSV Go GoVal
 
-theorem validateFuel_zero (env : VEnv) (stack : List NodeId) (i : GoVal) (s : NodeId) :
-    validateFuel env 0 stack i s = .fuel := rfl
+/-- clear every field the package documents as non-asserting, and Extra / PropertyOrder / unreferenced definitions -/
+def eraseMeta (n : Node) : Node :=
+  { n with title := "", description := "", comment := "", default := none, examples := none, deprecated := false,
+           readOnly := false, writeOnly := false, format := "", contentEncoding := "", contentMediaType := "",
+           contentSchema := none, extra := none, propertyOrder := none, defs := none, definitions := none,
+           vocabulary := none }
+
+def eraseStore (st : Store) : Store := st.map eraseMeta
+
+/-- **C18.**  Clearing title, description, $comment, default, examples, deprecated, readOnly, writeOnly, format,
+    contentEncoding, contentMediaType, contentSchema, Extra, PropertyOrder, $defs, definitions and $vocabulary in
+    every schema object changes no result of the evaluator: same verdict, same annotations, same panics, same fuel. -/
+theorem validate_eraseMeta (env : Go.VEnv) : ∀ fuel stack i s,
+    Go.validateFuel { env with st := eraseStore env.st } fuel stack i s = Go.validateFuel env fuel stack i s :=
+  Inv.validateFuel_map env eraseMeta (fun _ => rfl)
+
+/-- … and at the entry point `(*Resolved).Validate` (which also reads the root's `$schema`) -/
+theorem validate_eraseMeta_entry (env : Go.VEnv) (supported : List String) (fuel : Nat) (root : NodeId) (inst : GoVal) :
+    Go.validate { env with st := eraseStore env.st } supported fuel root inst = Go.validate env supported fuel root inst :=
+  Inv.validate_map env eraseMeta (fun _ => rfl) (fun _ => rfl) supported fuel root inst
+
+/-- **generalisation**: any per-node decoration `f` that agrees with the identity on the fields the blocks read
+    (`Inv.readsOf` keeps exactly the 44 fields of `Generated.validateReads` and `id`, and zeroes the 20 others)
+    is invisible to the evaluator. -/
+theorem validate_decoration (env : Go.VEnv) (f : Node → Node) (hf : ∀ n, Inv.readsOf (f n) = Inv.readsOf n) :
+    ∀ fuel stack i s,
+    Go.validateFuel { env with st := env.st.map f } fuel stack i s = Go.validateFuel env fuel stack i s :=
+  Inv.validateFuel_map env f hf
+
+/-- `$id`, `$schema`, `$anchor`, `$dynamicAnchor` are consumed by Resolve; `(*state).validate` never selects
+    `Schema`, `Anchor`, `DynamicAnchor` (it reads `ID` only through `schemaString` in the deferred `wrapf`):
+    clearing these three as well is invisible to `validateFuel` -/
+theorem validate_eraseMeta_anchors (env : Go.VEnv) : ∀ fuel stack i s,
+    Go.validateFuel { env with st := env.st.map fun n =>
+        { eraseMeta n with schema := "", anchor := "", dynamicAnchor := "" } } fuel stack i s
+      = Go.validateFuel env fuel stack i s :=
+  Inv.validateFuel_map env _ (fun _ => rfl)
+
+/-- the regenerated list of fields read by `(*state).validate` contains none of the non-asserting ones -/
+theorem validateReads_disjoint :
+    ∀ f ∈ ["Title","Description","Comment","Default","Examples","Deprecated","ReadOnly","WriteOnly","Format",
+           "ContentEncoding","ContentMediaType","ContentSchema","Extra","PropertyOrder","Defs","Definitions",
+           "Vocabulary","ID","Schema","Anchor","DynamicAnchor"],
+      f ∉ Generated.validateReads := by
+  decide
+
+/-- the Node fields the model's keyword blocks read, by Go field name (`Inv.readsOf` keeps exactly these and `id`) -/
+def modelReads : List String := [
+  "Ref", "DynamicRef", "Type", "Types", "Enum", "Const", "MultipleOf", "Minimum", "Maximum", "ExclusiveMinimum",
+  "ExclusiveMaximum", "MinLength", "MaxLength", "Pattern", "PrefixItems", "Items", "ItemsArray", "MinItems",
+  "MaxItems", "AdditionalItems", "UniqueItems", "Contains", "MinContains", "MaxContains", "UnevaluatedItems",
+  "MinProperties", "MaxProperties", "Required", "DependentRequired", "Properties", "PatternProperties",
+  "AdditionalProperties", "PropertyNames", "UnevaluatedProperties", "AllOf", "AnyOf", "OneOf", "Not", "If", "Then",
+  "Else", "DependentSchemas", "DependencySchemas", "DependencyStrings"]
+
+/-- the documented list of fields the model reads = the list regenerated from the Go source -/
+theorem modelReads_eq_generated :
+    (modelReads.all (Generated.validateReads.contains ·) && Generated.validateReads.all (modelReads.contains ·)) = true := by
+  decide
+
+/-- every name of `modelReads` is a field of the Go struct -/
+theorem modelReads_are_fields : modelReads.all ((Generated.schemaFields.map (·.1)).contains ·) = true := by
+  decide
+
+/-- the formal half of `modelReads_eq_generated`: resetting ANY field of the Go struct that is not in the regenerated
+    list (and is not `ID`) to its zero value, in every schema object, is invisible to the evaluator — so the model
+    reads no field outside `Generated.validateReads ∪ {ID}`. -/
+theorem model_reads_within_generated (env : Go.VEnv) (name : String)
+    (h : name ∉ Generated.validateReads) (hid : name ≠ "ID") : ∀ fuel stack i s,
+    Go.validateFuel { env with st := env.st.map (Inv.eraseField name) } fuel stack i s
+      = Go.validateFuel env fuel stack i s :=
+  Inv.validateFuel_map env _ (Inv.eraseField_preserves name h hid)
+
+/-- the 20 fields of the struct this covers -/
+theorem unread_fields :
+    (Generated.schemaFields.map (·.1)).filter (fun f => !("ID" :: Generated.validateReads).contains f) =
+      ["Schema", "Comment", "Defs", "Definitions", "Anchor", "DynamicAnchor", "Vocabulary", "Title", "Description",
+       "Default", "Deprecated", "ReadOnly", "WriteOnly", "Examples", "ContentEncoding", "ContentMediaType",
+       "ContentSchema", "Format", "Extra", "PropertyOrder"] := by
+  decide
+
+/-! ## unknown keywords -/
+
+/-- unknown keywords never make Unmarshal fail: one more member with a key outside `Go.knownKeys` -/
+theorem unmarshal_unknown_ok (rec : URec) (kvs : List (String × Json)) (k : String) (v : Json) (st : Store)
+    (hk : Go.knownKeys.contains k = false) :
+    (∃ r, Go.setFields rec (kvs ++ [(k, v)]) Go.emptyNode st = .ok r) ↔
+    (∃ r, Go.setFields rec kvs Go.emptyNode st = .ok r) := by
+  rw [Inv.setFields_append]
+  cases Go.setFields rec kvs Go.emptyNode st with
+  | ok p =>
+    simp only [Res.bind_ok, Go.setFields, Inv.setField_unknown rec p.1 p.2 k v hk]
+    exact ⟨fun _ => ⟨p, rfl⟩, fun _ => ⟨_, rfl⟩⟩
+  | fuel => simp
+  | panic => simp
+  | err => simp
+
+/-- … and the resulting schema object differs from the original only in `extra`, the store not at all -/
+theorem unmarshal_unknown_extra_only (rec : URec) (kvs : List (String × Json)) (k : String) (v : Json) (st st' : Store)
+    (n : Node) (hk : Go.knownKeys.contains k = false) (h : Go.setFields rec kvs Go.emptyNode st = .ok (n, st')) :
+    Go.setFields rec (kvs ++ [(k, v)]) Go.emptyNode st
+      = .ok ({ n with extra := some ((n.extra.getD []) ++ [(k, v)]) }, st') := by
+  rw [Inv.setFields_append, h]
+  simp only [Res.bind_ok, Go.setFields, Inv.setField_unknown rec n st' k v hk]
+
+/-- an outcome other than success is unchanged too (error, panic, out of fuel) — whatever the extra member is -/
+theorem unmarshal_unknown_fail (rec : URec) (kvs : List (String × Json)) (k : String) (v : Json) (st : Store)
+    (h : ∀ r, Go.setFields rec kvs Go.emptyNode st ≠ .ok r) :
+    Go.setFields rec (kvs ++ [(k, v)]) Go.emptyNode st = (Go.setFields rec kvs Go.emptyNode st).bind fun _ => .err := by
+  rw [Inv.setFields_append]
+  cases he : Go.setFields rec kvs Go.emptyNode st with
+  | ok p => exact absurd he (h p)
+  | _ => rfl
+
+/-- hence the evaluator cannot tell the two schema objects apart -/
+theorem unknown_keyword_not_read (n : Node) (k : String) (v : Json) :
+    Inv.readsOf { n with extra := some ((n.extra.getD []) ++ [(k, v)]) } = Inv.readsOf n := rfl
+
+/-! ## The statements are not vacuous: a store full of metadata
+
+`{"title":"T","description":"d","$defs":{"unused":{}},"x-foo":1,"allOf":[{"properties":{"a":{"default":"x","readOnly":true}},
+"format":"email"}],"unevaluatedProperties":false}` -/
+
+def exStore : Store := #[
+  { title := "T", description := "d", defs := some [("unused", 4)], extra := some [("x-foo", .num 1)],
+    allOf := some [1], unevaluatedProperties := some 3 },
+  { properties := some [("a", 2)], format := "email" },
+  { default := some (.str "x"), readOnly := true },
+  { not := some 4, comment := "false" },
+  {} ]
+
+def exInfos : List (NodeId × Info) :=
+  [(0, { path := "root", base := some 0 }), (1, { path := "/allOf/0", base := some 0 }),
+   (2, { path := "/allOf/0/properties/a", base := some 0 }), (3, { path := "/unevaluatedProperties", base := some 0 }),
+   (4, { path := "/unevaluatedProperties/not", base := some 0 })]
+
+def exEnv : VEnv :=
+  { st := exStore, draft := .d2020, infos := exInfos, reMatch := fun _ _ => false, hash := fun _ => 0 }
+
+def exGood : Json := .obj [("a", .str "x")]
+def exBad : Json := .obj [("a", .str "x"), ("b", .null)]
+
+/-- the erased store, written out -/
+def exErased : Store := #[
+  { allOf := some [1], unevaluatedProperties := some 3 },
+  { properties := some [("a", 2)] },
+  {},
+  { not := some 4 },
+  {} ]
+
+/-- the erased store really is different: title, description, $defs, Extra, format, default, readOnly, $comment are gone,
+    the asserting keywords are still there -/
+theorem exErased_eq : eraseStore exStore = exErased := by
+  simp only [eraseStore, exStore, List.map_toArray, List.map]
+  rfl
+example : (exStore[0]?.map (·.title), exErased[0]?.map (·.title)) = (some "T", some "") := by decide
+example : (exStore[1]?.map (·.format), exErased[1]?.map (·.format)) = (some "email", some "") := by decide
+example : (exStore[2]?.map (·.readOnly), exErased[2]?.map (·.readOnly)) = (some true, some false) := by decide
+
+/-- `validate_eraseMeta` applied -/
+example : Go.validateFuel { exEnv with st := exErased } 3 [] (GoVal.ofJson exBad) 0
+    = Go.validateFuel exEnv 3 [] (GoVal.ofJson exBad) 0 := by
+  rw [← exErased_eq]; exact validate_eraseMeta exEnv 3 [] _ 0
+/-- both sides by running the model -/
+example : (Go.validateFuel exEnv 3 [] (GoVal.ofJson exBad) 0).verdict = some false := by decide
+example : (Go.validateFuel { exEnv with st := exErased } 3 [] (GoVal.ofJson exBad) 0).verdict = some false := by decide
+example : (Go.validateFuel exEnv 3 [] (GoVal.ofJson exGood) 0).verdict = some true := by decide
+example : (Go.validateFuel { exEnv with st := exErased } 3 [] (GoVal.ofJson exGood) 0).verdict = some true := by decide
+/-- `validate_eraseMeta_entry` applied -/
+example : Go.validate { exEnv with st := exErased } [""] 3 0 (GoVal.ofJson exGood)
+    = Go.validate exEnv [""] 3 0 (GoVal.ofJson exGood) := by
+  rw [← exErased_eq]; exact validate_eraseMeta_entry exEnv [""] 3 0 _
+/-- `model_reads_within_generated` applied to a field name -/
+example : ∀ fuel stack i s,
+    Go.validateFuel { exEnv with st := exEnv.st.map (Inv.eraseField "Format") } fuel stack i s
+      = Go.validateFuel exEnv fuel stack i s :=
+  model_reads_within_generated exEnv "Format" (by decide) (by decide)
+/-- a field that IS read: clearing `unevaluatedProperties` at the root flips the verdict, so the hypothesis
+    `name ∉ Generated.validateReads` of `model_reads_within_generated` cannot be dropped -/
+example : Inv.eraseField "UnevaluatedProperties" { allOf := some [1], unevaluatedProperties := some 3 } = { allOf := some [1] } :=
+  rfl
+example : (Go.validateFuel { exEnv with st := #[{ allOf := some [1] }, { properties := some [("a", 2)] }, {},
+    { not := some 4 }, {}] } 3 [] (GoVal.ofJson exBad) 0).verdict = some true := by decide
+
+/-- unknown keyword: `{"type":"string","minLength":2}` then `"x-vendor":{"a":[1]}` -/
+example : Go.knownKeys.contains "x-vendor" = false := by decide
+example :
+    Go.setFields (Go.unmarshalFuel 3) [("type", .str "string"), ("minLength", .num 2)] Go.emptyNode #[]
+      = .ok ({ type := "string", minLength := some 2 }, #[]) := by rfl
+/-- `unmarshal_unknown_extra_only` applied -/
+example :
+    Go.setFields (Go.unmarshalFuel 3) ([("type", .str "string"), ("minLength", .num 2)] ++
+        [("x-vendor", .obj [("a", .arr [.num 1])])]) Go.emptyNode #[]
+      = .ok ({ type := "string", minLength := some 2, extra := some [("x-vendor", .obj [("a", .arr [.num 1])])] }, #[]) :=
+  unmarshal_unknown_extra_only (Go.unmarshalFuel 3) [("type", .str "string"), ("minLength", .num 2)] "x-vendor"
+    (.obj [("a", .arr [.num 1])]) #[] #[] { type := "string", minLength := some 2 } (by decide) (by rfl)
+/-- `unmarshal_unknown_ok` applied -/
+example : ∃ r, Go.setFields (Go.unmarshalFuel 3) ([("type", .str "string"), ("minLength", .num 2)] ++
+    [("x-vendor", .null)]) Go.emptyNode #[] = .ok r :=
+  (unmarshal_unknown_ok (Go.unmarshalFuel 3) _ "x-vendor" .null #[] (by decide)).mpr ⟨_, by rfl⟩
+/-- a failing document keeps failing with the same outcome -/
+example : Go.setFields (Go.unmarshalFuel 3) ([("type", .num 1)] ++ [("x-vendor", .null)]) Go.emptyNode #[] = .err := by
+  rfl
 
 end JSV.C18
